@@ -74,6 +74,9 @@ class Gen:
         return ['probe', self.new_pid(), 'id']
 
     def missing(self):
+        if self.rng.random() < 0.15:
+            # a literal that the target never equals: MatchError, whose message shows the target's repr
+            return ['MatchLit', 'never-equal']
         return self.rng.choice([['str', 'zz'], ['T', 'T', [['[', 'zz']]], ['str', 'zz.y'],
                                 ['T', 'S', [['.', 'unbound_name']]], ['T', 'S', [['[', 'unbound_key']]]])
 
@@ -257,6 +260,39 @@ def eval_plan(G, item, plan, stats):
           {'problem': p, 'trace': msg.split('\n')[2:2 + 40]})
     if me.branches:
         stats['reach.branching_ancestor'] = stats.get('reach.branching_ancestor', 0) + 1
+    # ---- the SAME target object, changed in place by its owner, fails again: the new trace shows the
+    # target as it is now (what was rendered for an object before is history)
+    if not problems and isinstance(item['target'], (dict, list)) and item['target'] \
+            and len(record['root_target']) > item['knobs'].get('trace_width', 78) - 12:
+        import copy as _copy
+        plain2 = _copy.deepcopy(item['target'])
+        if isinstance(plain2, dict):
+            k0 = next(iter(plain2))
+            plain2[k0] = 'CHANGED-IN-PLACE'
+            target[k0] = 'CHANGED-IN-PLACE'
+        else:
+            plain2[0] = 'CHANGED-IN-PLACE'
+            target[0] = 'CHANGED-IN-PLACE'
+        k2 = simrun.make_kernel(G, seed=0, faults=plan)
+        B2 = build.Builder(G, k2)
+        root2 = tw.build(G, B2, item['spec'])
+        res2 = k2.run_single(lambda: G.glom(target, root2.obj))
+        m2 = tw.Walker(plan).run(root2, plain2)
+        if res2[0] == 'exc' and m2[0] == 'err' and isinstance(res2[1], G.GlomError):
+            stats['reach.rendered_again_after_in_place_change'] = stats.get('reach.rendered_again_after_in_place_change', 0) + 1
+            me2 = m2[1]
+            rec2 = {'root_target': fmtv(target),
+                    'path': [(fmtv(n.obj), fmtv(t), id(n)) for n, t in me2.path],
+                    'branches': {nid: [(fmtv(c.obj), e.etype, e.marker) for c, e in fl] for nid, fl in me2.branches.items()},
+                    'etype': me2.etype, 'marker': me2.marker, 'inline_ok': dict(me2.inline_ok)}
+            try:
+                msg2 = str(res2[1])
+                blocks2, _ = tw.parse_trace(msg2)
+                for p in tw.embed(blocks2, rec2, fmtv):
+                    V('trace-embedding', f'after-in-place-change/{p[0]}', rec2['root_target'][:120],
+                      {'problem': p, 'trace': msg2.split('\n')[2:12]})
+            except ValueError:
+                pass
     # ---- final line: type and message of the original error
     kd, _, _, resd = one(True)
     if resd[0] == 'exc':
